@@ -166,6 +166,8 @@ impl Ldap {
         }
         msgmap.0 = next_ldap_id;
         msgmap.1.insert(next_ldap_id);
+        #[cfg(ldap3_verif)]
+        crate::verif::id_event("IdAlloc", next_ldap_id, last_ldap_id, "alloc");
         next_ldap_id
     }
 
@@ -829,5 +831,28 @@ impl Ldap {
         {
             Ok(None)
         }
+    }
+}
+
+#[cfg(ldap3_verif)]
+impl Ldap {
+    /// Current allocator state: (last issued ID, sorted IDs in use).
+    pub fn verif_msgmap(&self) -> (RequestId, Vec<RequestId>) {
+        let msgmap = self.msgmap.lock().expect("msgmap mutex (verif)");
+        let mut used: Vec<RequestId> = msgmap.1.iter().copied().collect();
+        used.sort_unstable();
+        (msgmap.0, used)
+    }
+
+    /// Place the allocator at an arbitrary position (for wrap-around tests).
+    pub fn verif_set_msgmap(&self, last: RequestId, used: &[RequestId]) {
+        let mut msgmap = self.msgmap.lock().expect("msgmap mutex (verif)");
+        msgmap.0 = last;
+        msgmap.1 = used.iter().copied().collect();
+    }
+
+    /// Allocate one message ID exactly as an operation would, without sending anything.
+    pub fn verif_next_msgid(&mut self) -> RequestId {
+        self.next_msgid()
     }
 }
